@@ -16,6 +16,58 @@ DCF = CONN + 'decode_complete_fragment'
 MARKERS = {'VERSION': 131, 'VERSION_TAG': 131, 'DIST_HEADER': 68, 'DIST_FRAG_HEADER': 69, 'DIST_FRAG_CONT': 70, 'PASS_THROUGH': 112}
 
 
+
+def payload_rules(ctx, RULE):
+    P = ctx.P
+    # the payload of a pass-through frame is whatever follows the control term: present exactly when bytes remain, and an
+    # undecodable one is an error for that frame, not a message without payload
+    ctx.rule(RULE, 'in both receive paths "no payload" (None) is answered only where the bytes left after the control term are known to be none (length 0 at that site), or where the whole frame was '
+             'decoded as one term; and the result of decoding the payload is propagated with `?`, never turned into None/default by ok() / unwrap_or*', floor=2)
+    from ..ranges import Ranges as _Rg, canon as _cn6
+    n_pl = 0
+    for fn in (CONN + 'receive_message', CONN + 'receive_message_from_read_half'):
+        for RB in bodies_of_fn(P, fn):
+            if RB.b['kind'] != 'Closure' or not any(blk['t']['k'] == 'yield' for blk in RB.blocks):
+                continue
+            Rr = None
+            dwt = [(bb, t) for bb, t in RB.calls() if (callee_of(t)[0] or '').endswith('decoder::decode_with_trailing')]
+            whole = [(bb, t) for bb, t in RB.calls() if (callee_of(t)[0] or '') in ('erltf::decoder::decode', 'erltf::decode')]
+            short = fn.rsplit('::', 1)[1]
+            for bb, j, st in RB.stmts():
+                if not (st['k'] == '=' and st['rv']['k'] == 'agg' and st['rv'].get('adt') == 'core::option::Option' and st['rv'].get('var') == 'None'):
+                    continue
+                ty = RB.local_ty(st['pl']['l'])
+                if ty != 'core::option::Option<erltf::term::OwnedTerm>':
+                    continue
+                n_pl += 1
+                Rr = Rr or _Rg(RB)
+                inst = '%s:None#%d' % (short, n_pl)
+                where = ctx.where(RB, ln=st['ln'])
+                doms = [(db, dt) for db, dt in dwt if RB.block_dominates(db, bb) and db != bb]
+                if doms:
+                    facts = Rr.facts_at(bb)
+                    zero = [k for k, v in facts.items() if isinstance(k, tuple) and k and k[0] == 'len' and 'decode_with_trailing' in str(k) and v == (0, 0)]
+                    if zero:
+                        ctx.ok(RULE, inst, 'the remainder after the control term has length 0 here', where)
+                    else:
+                        ctx.bad(RULE, inst, 'the frame is delivered without payload on a path where bytes may remain after the control term: a message the peer sent with a payload arrives as (control, None)',
+                                where, key='PROV:%s:payload-dropped-with-bytes-remaining' % fn)
+                elif any(RB.block_dominates(wb, bb) for wb, wt in whole):
+                    ctx.ok(RULE, inst, 'the whole frame was decoded as a single term (trailing bytes are an error there)', where)
+                else:
+                    ctx.undecided(RULE, inst, 'None payload at a site whose relation to the frame bytes is not recognised', where)
+            # the payload decode result is not swallowed
+            for bb, t in RB.calls():
+                nm = callee_of(t)[0] or ''
+                if nm.rsplit('::', 1)[-1] in ('ok', 'unwrap_or', 'unwrap_or_default', 'unwrap_or_else', 'map_or', 'map_or_else', 'is_ok', 'is_err', 'err') and nm.startswith('core::result::Result') and t['args']:
+                    o = RB.origin(t['args'][0])
+                    if o and o[0] == 'call' and ('erltf::decoder::' in str(o[1]) or str(o[1]).endswith('ControlMessage::from_term')):
+                        n_pl += 1
+                        ctx.bad(RULE, '%s:%s' % (short, nm.rsplit('::', 1)[-1]), 'the result of %s is consumed by %s(): a decoding error becomes "nothing there" and the frame is delivered as if the peer had sent it that way'
+                                % (str(o[1]).rsplit('::', 1)[-1], nm.rsplit('::', 1)[-1]), ctx.where(RB, bb), key='ERR:%s:decode-error-swallowed' % fn)
+    ctx.anchor(n_pl >= 2, 'payload None sites in the receive paths')
+
+
 def run(ctx):
     P = ctx.P
     # ---------------- clause 1: PANIC over the receive glue ---------------------------------------------
@@ -242,3 +294,5 @@ def run(ctx):
     ctx.rule('C06.7-dist-header-reader', 'a conforming DIST_HEADER frame is read as the format prescribes (flag bytes, LongAtoms bit by parity of the reference count, entries): rules C14.1 / C14.2 re-run here', floor=5)
     from . import c14 as _c14
     _c14.header_rules(SubCtx(ctx, 'C06.7-dist-header-reader', 'header'))
+
+    payload_rules(ctx, 'C06.4-payload-iff-bytes-remain')
